@@ -2,6 +2,8 @@ import SuppModel.Props.C16
 #print axioms SuppModel.Props.C16.C16_inv
 #print axioms SuppModel.Props.C16.C16_terminates
 #print axioms SuppModel.Props.C16.C16_close
-#print axioms SuppModel.Props.C16.C16_exactly_one_partial
+#print axioms SuppModel.Props.C16.C16_no_deadlock
+#print axioms SuppModel.Props.C16.C16_exactly_one
+#print axioms SuppModel.Props.C16.C16_at_most_one
 #print axioms SuppModel.Props.C16.C16_server_exits
 #print axioms SuppModel.Props.C16.C16_server_run
